@@ -257,6 +257,45 @@ Section Eval.
   Fixpoint set_var (e : env) (x : string) (v : val) : option env :=
     match e with [] => None | (y, w) :: r => if String.eqb x y then Some ((y, Some v) :: r) else option_map (cons (y, w)) (set_var r x v) end.
 
+  (* statements in sequence, stopping at the first break / return *)
+  Definition run_seq (ex : state -> env -> stmt -> res (outcome * state * env)) : list stmt -> state -> env -> res (outcome * state * env) :=
+    fix go (l : list stmt) (s0 : state) (e0 : env) : res (outcome * state * env) :=
+      match l with
+      | [] => Def (ONormal, s0, e0)
+      | x :: r => let? (o, s1, e1) := ex s0 e0 x in match o with ONormal => go r s1 e1 | _ => Def (o, s1, e1) end
+      end.
+
+  (* the default clause sits at position `pos` (before the case with that index): it runs when execution has started above it, or
+     when no case matches *)
+  Definition at_default (ex : state -> env -> stmt -> res (outcome * state * env)) (default : option (nat * list stmt)) (found : option nat)
+             (i : nat) (started : bool) (s0 : state) (e0 : env) : res (outcome * bool * state * env) :=
+    match default with
+    | Some (pos, db) =>
+        if Nat.eqb pos i then
+          if started || match found with None => true | Some _ => false end
+          then let? (o, s1, e1) := run_seq ex db s0 e0 in Def (o, true, s1, e1)
+          else Def (ONormal, started, s0, e0)
+        else Def (ONormal, started, s0, e0)
+    | None => Def (ONormal, started, s0, e0)
+    end.
+
+  Definition run_clauses (ex : state -> env -> stmt -> res (outcome * state * env)) (default : option (nat * list stmt)) (found : option nat)
+    : list (expr * list stmt) -> nat -> bool -> state -> env -> res (outcome * state * env) :=
+    fix run (l : list (expr * list stmt)) (i : nat) (started : bool) (s0 : state) (e0 : env) : res (outcome * state * env) :=
+      let? (o0, started0, s00, e00) := at_default ex default found i started s0 e0 in
+      match o0 with
+      | ONormal =>
+          match l with
+          | [] => Def (ONormal, s00, e00)
+          | (_, b) :: r =>
+              if started0 || match found with Some j => Nat.eqb j i | None => false end
+              then let? (o, s1, e1) := run_seq ex b s00 e00 in
+                   match o with ONormal => run r (S i) true s1 e1 | _ => Def (o, s1, e1) end
+              else run r (S i) false s00 e00
+          end
+      | _ => Def (o0, s00, e00)
+      end.
+
   Fixpoint exec (st : state) (e : env) (s : stmt) {struct s} : res (outcome * state * env) :=
     match s with
     | SExpr (EAssign (EIdent x) r) =>
@@ -279,11 +318,7 @@ Section Eval.
         end
     | SExpr x => let? (_, st1) := eval st e x in Def (ONormal, st1, e)
     | SBlock ss =>
-        let? (o, st1, e1) := (fix go (l : list stmt) (s0 : state) (e0 : env) : res (outcome * state * env) :=
-                                match l with
-                                | [] => Def (ONormal, s0, e0)
-                                | x :: r => let? (o, s1, e1) := exec s0 e0 x in match o with ONormal => go r s1 e1 | _ => Def (o, s1, e1) end
-                                end) ss st e in
+        let? (o, st1, e1) := run_seq exec ss st e in
         (* block scope: declarations of the block disappear, assignments to outer variables stay *)
         Def (o, st1, skipn (length e1 - length e) e1)
     | SDecl _ vars =>
@@ -317,37 +352,9 @@ Section Eval.
                                 | (c, _) :: r => let? (cv, s1) := eval s0 e c in let? m := compare BEq dv cv in
                                                  match m with VB true => Def (Some i, s1) | VB false => find r (S i) s1 | _ => Stuck "case" end
                                 end) cases 0%nat st1 in
-        let run_body := (fix go (bl : list stmt) (s5 : state) (e5 : env) : res (outcome * state * env) :=
-                           match bl with
-                           | [] => Def (ONormal, s5, e5)
-                           | x :: r5 => let? (o5, s6, e6) := exec s5 e5 x in match o5 with ONormal => go r5 s6 e6 | _ => Def (o5, s6, e6) end
-                           end) in
         (* clauses in source order, the default at its position `pos` (before the case with that index); execution starts at the
            matching case, or at the default when no case matches, and falls through *)
-        let at_default (i : nat) (started : bool) (s0 : state) (e0 : env) : res (outcome * bool * state * env) :=
-          match default with
-          | Some (pos, db) =>
-              if Nat.eqb pos i then
-                if started || match found with None => true | Some _ => false end
-                then let? (o, s1, e1) := run_body db s0 e0 in Def (o, true, s1, e1)
-                else Def (ONormal, started, s0, e0)
-              else Def (ONormal, started, s0, e0)
-          | None => Def (ONormal, started, s0, e0)
-          end in
-        let? (o, s3, e3) := (fix run (l : list (expr * list stmt)) (i : nat) (started : bool) (s0 : state) (e0 : env) : res (outcome * state * env) :=
-                               let? (o0, started0, s00, e00) := at_default i started s0 e0 in
-                               match o0 with
-                               | ONormal =>
-                                   match l with
-                                   | [] => Def (ONormal, s00, e00)
-                                   | (_, b) :: r =>
-                                       if started0 || match found with Some j => Nat.eqb j i | None => false end
-                                       then let? (o, s1, e1) := run_body b s00 e00 in
-                                            match o with ONormal => run r (S i) true s1 e1 | _ => Def (o, s1, e1) end
-                                       else run r (S i) false s00 e00
-                                   end
-                               | _ => Def (o0, s00, e00)
-                               end) cases 0%nat false st2 e in
+        let? (o, s3, e3) := run_clauses exec default found cases 0%nat false st2 e in
         Def ((match o with OBreak => ONormal | _ => o end), s3, skipn (length e3 - length e) e3)
     | SBreak _ => Def (OBreak, st, e)
     | SReturn None => Def (OReturn VVoid, st, e)
